@@ -53,8 +53,17 @@ func VsymC10Real() {
 	leaf.NotBefore, leaf.NotAfter = time.Unix(946684800, 0), time.Unix(4102444800, 0)
 	const dg = "sha256:aaaaaaaaaaaaaaaaaaaaaaaaaaaaaaaaaaaaaaaaaaaaaaaaaaaaaaaaaaaaaaaa"
 	resolved := ocispec.Descriptor{MediaType: "application/vnd.oci.image.manifest.v1+json", Digest: digest.Digest(dg), Size: 528}
+	// the caller's options (required metadata, plugin configuration) do not change what a skip level means
+	var userMetadata, pluginConfig map[string]string
+	o := vr.Choice("callerOptions", 4)
+	if o&1 != 0 {
+		userMetadata = map[string]string{"k": "v"}
+	}
+	if o&2 != 0 {
+		pluginConfig = map[string]string{"c": "d"}
+	}
 	kitEnv.content = &signature.EnvelopeContent{
-		Payload: signature.Payload{ContentType: "application/vnd.cncf.notary.payload.v1+json", Content: vr.JSONBytes(vr.JObj("targetArtifact", vr.JObj("mediaType", vr.JStr(resolved.MediaType), "digest", vr.JStr(dg), "size", vr.JNum(528))))},
+		Payload: signature.Payload{ContentType: "application/vnd.cncf.notary.payload.v1+json", Content: vr.JSONBytes(vr.JObj("targetArtifact", vr.JObj("mediaType", vr.JStr(resolved.MediaType), "digest", vr.JStr(dg), "size", vr.JNum(528), "annotations", vr.JObj("k", vr.JStr("v")))))},
 		SignerInfo: signature.SignerInfo{SignedAttributes: signature.SignedAttributes{SigningScheme: signature.SigningSchemeX509, SigningTime: time.Unix(1700000000, 0)},
 			SignatureAlgorithm: signature.AlgorithmPS256, CertificateChain: []*x509.Certificate{leaf}, Signature: []byte("sig")},
 	}
@@ -80,7 +89,7 @@ func VsymC10Real() {
 	}
 	repo := &c10rRepo{resolved: resolved}
 	ref := "reg.io/repo@" + dg // the library's verifier selects the statement by registry/repository@digest references
-	desc, outcomes, verr := notation.Verify(context.Background(), v, repo, notation.VerifyOptions{ArtifactReference: ref, MaxSignatureAttempts: 3})
+	desc, outcomes, verr := notation.Verify(context.Background(), v, repo, notation.VerifyOptions{ArtifactReference: ref, MaxSignatureAttempts: 3, UserMetadata: userMetadata, PluginConfig: pluginConfig})
 	if level == "skip" {
 		vr.Assert(verr == nil && len(outcomes) == 1 && outcomes[0].VerificationLevel != nil && outcomes[0].VerificationLevel.Name == "skip", "under a skip-level statement verification succeeds with the single skip outcome")
 		vr.Assert(repo.resolves == 0 && repo.lists == 0 && repo.fetches == 0, "... and nothing is resolved, listed or fetched at all")
